@@ -663,6 +663,13 @@ func checkSepTerm(p *core.Program, v ssa.Value) (bool, string) {
 				okG = true
 			}
 		}
+		// … and by nothing else: Generate uses the function whenever it is non-nil
+		for _, g := range core.Guards(c.Block()) {
+			if rel, ok := core.AsRel(g); ok && rel.Op == token.NEQ && core.IsNilConst(rel.Y) && recipeField(rel.X, "SeparatorFunc") {
+				continue
+			}
+			return false, "separator entropy is taken under an additional condition (" + core.Describe(g.Cond) + "): Generate calls the separator function whenever it is non-nil, so the term would be missing for some recipes"
+		}
 		if !okG {
 			return false, "separator call not guarded by SeparatorFunc != nil"
 		}
